@@ -2172,7 +2172,7 @@ func runC17(r *Run, rng *Rng, tier string) error {
 	}
 	nModel, nLaw, maxOps := 250, 150, 6
 	if tier == "thorough" {
-		nModel, nLaw, maxOps = 1500, 2500, 12
+		nModel, nLaw, maxOps = 1000, 2000, 12
 	}
 	r.shard = 25
 	r.Meta.Rule = "initial files: random typed kustomizations (all fields of the model incl. deprecated bases/imageTags/env/patchesStrategicMerge/patchesJson6902/commonLabels, " +
